@@ -197,6 +197,16 @@ def meanbv_case(cid, rng):
             df = pandas.DataFrame({"taxa": [names[o[0]] for o in obs], "taxa_grp": [grp[o[0]] for o in obs]})
             for t in range(T):
                 df["y%d" % t] = [float(o[1][t]) for o in obs]
+            # the table is what a user's data handling leaves behind: rows shuffled or filtered WITH their original row labels
+            # (no reset_index), or labelled by something else than 0..n-1
+            how = rng.choice(["default", "shuffled-labels", "offset-labels", "string-labels"])
+            if how == "shuffled-labels" and len(df) > 1:
+                df = df.sample(frac=1.0, random_state=rng.randrange(2 ** 31))     # rows permuted, index labels travel with the rows
+            elif how == "offset-labels":
+                df.index = range(1000, 1000 + len(df))
+            elif how == "string-labels":
+                df.index = ["row%d" % (len(df) - k) for k in range(len(df))]
+            c["index"] = how
             gm = DenseGenotypeMatrix(np.zeros((len(gt), 2), dtype="int8"), taxa=np.array([names[i] for i in gt], dtype=object),
                                      taxa_grp=np.array([grp[i] for i in gt], dtype="int64"))
             est = MeanPhenotypicBreedingValue("taxa", "taxa_grp" if use_grp else None, ["y%d" % t for t in range(T)]).estimate(df, gm)
